@@ -9,6 +9,7 @@ import (
 	_ "verif/scenarios/c12"
 	_ "verif/scenarios/c13"
 	_ "verif/scenarios/c14"
+	_ "verif/scenarios/c15"
 	_ "verif/scenarios/c16"
 	_ "verif/scenarios/c17"
 )
